@@ -17,6 +17,9 @@ var literalSpellings = []struct {
 }{
 	{"3e3", 3000.0}, {"1.5e3", 1500.0}, {"1E2", 100.0}, {"1e+2", 100.0}, {"1e-2", 0.01}, {"-2.5e1", -25.0}, {"1e0", 1.0}, {"1e12", 1e12},
 	{"12e-1", 1.2}, {"0.5", 0.5}, {"-0.5", -0.5}, {"12", int64(12)}, {"-12", int64(-12)}, {"0", int64(0)}, {"10.25", 10.25}, {"123456789012", int64(123456789012)},
+	// leading zeros are read as decimal digits (the reader accepts them), the boundary integers, zero fractions and exponents
+	{"010", int64(10)}, {"-010", int64(-10)}, {"0100", int64(100)}, {"08", int64(8)}, {"009", int64(9)}, {"00", int64(0)}, {"010.5", 10.5}, {"01e1", 10.0},
+	{"9223372036854775807", int64(9223372036854775807)}, {"-9223372036854775808", int64(-9223372036854775808)}, {"2.0", 2.0}, {"1e00", 1.0}, {"1e-00", 1.0}, {"1e010", 1e10}, {"0.10", 0.1}, {"0e5", 0.0},
 	{"'a'", "a"}, {`"a"`, "a"}, {`'a\'b'`, "a'b"}, {`'a\\b'`, `a\b`}, {`'A'`, "A"}, {`'a\nb'`, "a\nb"}, {`'\x41'`, "A"}, {"true", true}, {"false", false}, {"null", nil},
 }
 
